@@ -12,7 +12,13 @@ import time
 
 VERIF = os.path.dirname(os.path.dirname(os.path.abspath(__file__)))
 SIM = os.path.join(VERIF, "sim")
-BIN = os.path.join(SIM, "target", "debug", "redproxy-rs")
+# The registered checks always judge /repo. For sensitivity experiments VERIF_REPO names another checkout (a scratch
+# worktree with a seeded change): a derived shadow manifest with its own target directory is generated for it, so that
+# such experiments never touch /repo and can run next to a sweep.
+REPO = os.environ.get("VERIF_REPO", "/repo").rstrip("/")
+ALT = REPO != "/repo"
+BUILD_DIR = SIM if not ALT else os.path.join(VERIF, "sim-alt")
+BIN = os.path.join(BUILD_DIR, "target", "debug", "redproxy-rs")
 PKI = os.path.join(SIM, "pki")
 REPLAYS = os.path.join(VERIF, "replays")
 EVIDENCE = os.path.join(VERIF, "evidence")
@@ -36,7 +42,21 @@ def build():
     env = dict(os.environ)
     env["CARGO_NET_OFFLINE"] = "true"
     t = time.time()
-    p = subprocess.run(["cargo", "build", "--offline"], cwd=SIM, env=env, stdout=subprocess.PIPE, stderr=subprocess.STDOUT, text=True)
+    if ALT:
+        os.makedirs(os.path.join(BUILD_DIR, ".cargo"), exist_ok=True)
+        with open(os.path.join(SIM, "Cargo.toml")) as f:
+            man = f.read()
+        man = man.replace('"/repo/', '"%s/' % REPO).replace('path = "facade/', 'path = "%s/facade/' % SIM)
+        old = None
+        if os.path.exists(os.path.join(BUILD_DIR, "Cargo.toml")):
+            with open(os.path.join(BUILD_DIR, "Cargo.toml")) as f:
+                old = f.read()
+        if old != man:
+            with open(os.path.join(BUILD_DIR, "Cargo.toml"), "w") as f:
+                f.write(man)
+        shutil.copy(os.path.join(SIM, "Cargo.lock"), os.path.join(BUILD_DIR, "Cargo.lock"))
+        shutil.copy(os.path.join(SIM, ".cargo", "config.toml"), os.path.join(BUILD_DIR, ".cargo", "config.toml"))
+    p = subprocess.run(["cargo", "build", "--offline"], cwd=BUILD_DIR, env=env, stdout=subprocess.PIPE, stderr=subprocess.STDOUT, text=True)
     if p.returncode != 0:
         print(p.stdout[-6000:])
         die_harness("simulator build failed (a change in /repo that no longer compiles against the facade is a harness error, not a violation)")
